@@ -5,6 +5,7 @@
 -/
 import SugarModel.Model.Raft
 import SugarModel.Lemmas.NoFlush
+import SugarModel.Lemmas.ReadOnly
 namespace Sugar.Raft
 open Sugar
 
@@ -79,12 +80,59 @@ theorem runCl_frame {α : Type} (role : Role) (p : Prog α) : ∀ (c : Ctx) (s :
       rw [ih r c s' j hj (hp2 r)]
       exact execCl_frame role c s q s' r j hj hp1 hx
 
+/-! ### reading programs on a cluster node -/
+
+/-- a reading primitive leaves a cluster node's state exactly as it was (in a cluster GetValues never deletes an
+    expired key itself: the leader proposes the deletion, a follower forwards it) -/
+theorem execCl_read_state (role : Role) (c : Ctx) (s s' : State) (p : Prim) (r : p.Res)
+    (hp : p.isRead = true) (h : execCl role c s p = .ok s' r) : s' = s := by
+  cases p with
+  | getValues ks =>
+    simp only [execCl] at h
+    split at h
+    · cases h
+    · injection h with h1 _; exact h1.symm
+  | keysExist ks => simp only [execCl, Prim.exec] at h; injection h with h1 _; exact h1.symm
+  | getExpiry k => simp only [execCl, Prim.exec] at h; injection h with h1 _; exact h1.symm
+  | newOid => simp only [execCl, Prim.exec] at h; injection h with h1 _; exact h1.symm
+  | setValues _ => simp [Prim.isRead] at hp
+  | setExpiry _ _ _ => simp [Prim.isRead] at hp
+  | deleteKey _ => simp [Prim.isRead] at hp
+  | flush _ => simp [Prim.isRead] at hp
+  | mutObj _ _ => simp [Prim.isRead] at hp
+  | tagOid _ _ => simp [Prim.isRead] at hp
+  | setConnDb _ => simp [Prim.isRead] at hp
+  | swapDbs _ _ => simp [Prim.isRead] at hp
+
+/-- **a program that issues reading primitives only leaves the dataset of the node that runs it exactly as it
+    was**, in either role, whatever it answers (done, hang) -/
+theorem runCl_readOnly_state {α : Type} (role : Role) (p : Prog α) : ∀ (c : Ctx) (s : State),
+    p.ReadOnly → (runCl role c p s).1 = s := by
+  induction p with
+  | ret a => intro c s _; rfl
+  | panic w => intro c s _; rfl
+  | unmod w => intro c s _; rfl
+  | call q k ih =>
+    intro c s hp
+    obtain ⟨hp1, hp2⟩ := hp
+    simp only [runCl]
+    cases hx : execCl role c s q with
+    | panic => rfl
+    | hang => rfl
+    | ok s' r =>
+      simp only
+      rw [ih r c s' (hp2 r)]
+      exact execCl_read_state role c s s' q r hp1 hx
+
 /-! ### handler models that never read their context -/
 
 /-- command words whose handler model takes the context into account (clock, map order, random picks) -/
 def envSensitive : List Bytes :=
   [b "set", b "ttl", b "pttl", b "expire", b "pexpire", b "getex", b "spop",
-   b "sinter", b "sintercard", b "sinterstore", b "sunion", b "sunionstore",
+   -- SINTER / SINTERCARD walk their operand map in Go map order (which key an error names). SINTERSTORE, SUNION and
+   -- SUNIONSTORE are not listed any more: they examine their operands in the order of the command line and build a
+   -- new set (repaired upstream), so `table_env_free` below covers their rows
+   b "sinter", b "sintercard",
    -- sorted-set handlers whose model reads the map-order / tie oracle of the context
    b "zlexcount", b "zmpop", b "zpopmax", b "zpopmin", b "zrange", b "zrangestore", b "zrank", b "zremrangebyrank", b "zrevrank"]
 
